@@ -43,6 +43,13 @@ impl Trail {
 
 /// Which convention the engine's FEN reader should be fed: the raw target is always a
 /// faithful description for move generation, so roots are handed over with `Always`.
+/// Legal positions (per refchess) whose FEN the engine's reader refused or choked on: C06 turns these into violations.
+pub fn note_rejected(fen: &str, l: &mut Local) {
+    if l.samples.len() < 40 {
+        l.samples.push(js(format!("rejected-by-reader:{fen}")));
+    }
+}
+
 pub fn game_from_pos(p: &Pos) -> Option<Game> {
     Game::from_fen(&p.to_fen(EpConv::Always)).ok()
 }
@@ -101,6 +108,8 @@ where
                 continue;
             }
             let Some(mut g) = game_from_pos(root) else {
+                l.feat("fen_rejected_by_engine");
+                note_rejected(&root.to_fen(EpConv::Always), l);
                 continue;
             };
             let mut trail = Trail {
@@ -141,6 +150,8 @@ where
         }
         let root = rng.pick(&roots).clone();
         let Some(mut g) = game_from_pos(&root) else {
+            l.feat("fen_rejected_by_engine");
+            note_rejected(&root.to_fen(EpConv::Always), l);
             continue;
         };
         let mut p = root.clone();
@@ -224,8 +235,9 @@ where
             f(&g, p, &trail, l);
         }
         _ => {
-            // the reader's behaviour on legal FENs is C06's business; count it here
+            // the reader's behaviour on legal FENs is C06's business; count it here and keep a few for C06 to judge
             l.feat("fen_rejected_by_engine");
+            note_rejected(&fen, l);
         }
     }
 }
